@@ -23,6 +23,9 @@ var (
 	flagTier   = flag.String("verif.tier", "quick", "quick|thorough")
 	flagWorker = flag.Bool("verif.worker", false, "run as worker")
 	flagReplay = flag.String("verif.replay", "", "replay file")
+	// a check that has a schedule-exploring part and an API-level part: this part hands its coverage to the other
+	// one, which merges it and writes the evidence
+	flagPartial = flag.String("verif.partial", "", "write the mergeable result to this file instead of finishing the check")
 )
 
 // Job is one unit of exploration sent to a worker process.
@@ -229,6 +232,24 @@ func driverMain(id, tier string) int {
 		drv.infra = append(drv.infra, f)
 	}
 	scratch.Cleanup()
+	if *flagPartial != "" {
+		out := map[string]any{"partial": r.Export(), "infra": drv.infra, "technique": r.Technique, "rule": r.Rule, "assume": r.Assume}
+		b, err := json.Marshal(out)
+		if err == nil {
+			err = os.WriteFile(*flagPartial, b, 0644)
+		}
+		if err != nil {
+			fmt.Fprintln(os.Stderr, "INFRA: cannot write partial result:", err)
+			return 2
+		}
+		for _, s := range drv.infra {
+			fmt.Fprintln(os.Stderr, "INFRA:", s)
+		}
+		if len(drv.infra) > 0 {
+			return 2
+		}
+		return 0
+	}
 	if len(drv.infra) > 0 {
 		for _, s := range drv.infra {
 			fmt.Fprintln(os.Stderr, "INFRA:", s)
